@@ -471,6 +471,9 @@ def call_method(ex, st, node, recv, name, args, kwargs):
         return L, None
     if isinstance(recv, VStr) and name in ('split', 'rsplit') and 1 <= len(args) <= 2 and z3.is_string_value(args[0].term) and not kwargs:
         sep = args[0].term
+        if len(args) == 1 and z3.is_string_value(z3.simplify(recv.term)) and zstr(sep):
+            # a literal receiver: the split is computed
+            return list_of([VStr(z3.StringVal(x), recv.ty) for x in zstr(z3.simplify(recv.term)).split(zstr(sep))], None), None
         if len(args) == 2:
             mx = z3.simplify(args[1].term)
             if not (z3.is_int_value(mx) and mx.as_long() == 1): raise ToolLimit('split maxsplit != 1')
@@ -511,7 +514,15 @@ def call_method(ex, st, node, recv, name, args, kwargs):
             for j in range(k):
                 if j: parts.append(recv.term)
                 parts.append(z3.simplify(z3.Select(lst.arr, j)))
-            return VStr(z3.Concat(*parts) if len(parts) > 1 else (parts[0] if parts else z3.StringVal('')), recv.ty), None
+            rc = z3.Concat(*parts) if len(parts) > 1 else (parts[0] if parts else z3.StringVal(''))
+            if k >= 1 and z3.is_string_value(recv.term) and len(recv.term.as_string()) == 1:
+                # the split/join inverse (see below) for a known number of pieces
+                sep = recv.term; els = [z3.simplify(z3.Select(lst.arr, j)) for j in range(k)]
+                clean = z3.And([z3.Not(z3.Contains(x, sep)) for x in els])
+                rc2 = z3.Concat(sep, rc)
+                st.assume(z3.Implies(clean, z3.And([SPLIT_LEN(rc, sep) == k] + [z3.Select(SPLIT_ARR(rc, sep), j) == els[j] for j in range(k)] +
+                                                    [SPLIT_LEN(rc2, sep) == k + 1, z3.Select(SPLIT_ARR(rc2, sep), 0) == z3.StringVal('')] + [z3.Select(SPLIT_ARR(rc2, sep), j + 1) == els[j] for j in range(k)])))
+            return VStr(rc, recv.ty), None
         r = JOIN(recv.term, lst.arr, lst.n)
         if z3.is_string_value(recv.term) and recv.term.as_string() == '':
             for R in JOIN_ELEMENT_CLASSES:
@@ -522,6 +533,21 @@ def call_method(ex, st, node, recv, name, args, kwargs):
             # library lemma: non-empty pieces give a result at least as long as their number
             i = z3.Int(fid('jl'))
             st.assume(z3.Implies(z3.ForAll([i], z3.Implies(z3.And(0 <= i, i < lst.n), z3.Length(z3.Select(lst.arr, i)) >= 1)), z3.Length(r) >= lst.n))
+        if z3.is_string_value(recv.term) and len(recv.term.as_string()) == 1:
+            # library lemma (single-character separator): splitting a join of pieces that do not contain the separator gives the pieces back -- also when
+            # one more separator is put in front (the leading empty piece of an absolute path)
+            i = z3.Int(fid('sj')); sep = recv.term
+            clean = z3.ForAll([i], z3.Implies(z3.And(0 <= i, i < lst.n), z3.Not(z3.Contains(z3.Select(lst.arr, i), sep))))
+            j = z3.Int(fid('sj'))
+            st.assume(z3.Implies(z3.And(lst.n >= 1, clean), z3.And(SPLIT_LEN(r, sep) == lst.n,
+                      z3.ForAll([j], z3.Implies(z3.And(0 <= j, j < lst.n), z3.Select(SPLIT_ARR(r, sep), j) == z3.Select(lst.arr, j))))))
+            j2 = z3.Int(fid('sj')); r2 = z3.Concat(sep, r)
+            st.assume(z3.Implies(z3.And(lst.n >= 1, clean), z3.And(SPLIT_LEN(r2, sep) == lst.n + 1, z3.Select(SPLIT_ARR(r2, sep), 0) == z3.StringVal(''),
+                      z3.ForAll([j2], z3.Implies(z3.And(1 <= j2, j2 <= lst.n), z3.Select(SPLIT_ARR(r2, sep), j2) == z3.Select(lst.arr, j2 - 1))))))
+        # library facts: a join begins with its first piece and ends with its last one (followed / preceded by the separator when there are more)
+        if not (z3.is_string_value(recv.term) and recv.term.as_string() == ''):
+            st.assume(z3.Implies(lst.n >= 1, z3.And(z3.PrefixOf(z3.Select(lst.arr, 0), r), z3.SuffixOf(z3.Select(lst.arr, lst.n - 1), r))))
+            st.assume(z3.Implies(lst.n >= 2, z3.And(z3.PrefixOf(z3.Concat(z3.Select(lst.arr, 0), recv.term), r), z3.SuffixOf(z3.Concat(recv.term, z3.Select(lst.arr, lst.n - 1)), r))))
         st.assume(z3.Implies(lst.n == 0, r == z3.StringVal('')))
         st.assume(z3.Implies(lst.n == 1, r == z3.Select(lst.arr, 0)))
         st.assume(z3.Implies(lst.n == 2, r == z3.Concat(z3.Select(lst.arr, 0), recv.term, z3.Select(lst.arr, 1))))
@@ -1045,10 +1071,12 @@ def b_all_any(which):
 
 class VMatch(V):
     """re match object: groups are existentially chosen pieces (only what the library contract states is known)"""
-    def __init__(self, groups, subject, ty): self.groups = groups; self.subject = subject; self.ty = ty
+    def __init__(self, groups, subject, ty, pending=None): self.groups = groups; self.subject = subject; self.ty = ty; self.pending = pending or []
 
 
 def match_method(ex, st, node, m, name, args):
+    # the facts that tie the pieces to the subject are stated when a group is first asked for: a match that is only TESTED contributes `ok` alone
+    for f in m.pending: st.assume(f)
     if name == 'group':
         k = z3.simplify(args[0].term).as_long() if args else 0
         if k not in m.groups: raise ToolLimit('match.group(%d) not modelled' % k)
@@ -1171,14 +1199,27 @@ def m_re(kind):
         if isinstance(subject, VOpt):
             ex.may_raise(st, 'TypeError', node, subject.isnone, z3.Not(subject.isnone), 're on None'); subject = subject.val
         try:
-            ok, groups = regex.match_with_groups(kind, pat, subject.term, fl, st)
+            chars = regex.single_class_search(pat, fl) if kind == 'search' else None
+            if chars:
+                # the same fact in the vocabulary of `x in s` tests (which distributes over the parts of a concatenation and meets the class lemmas)
+                hit = z3.Or([contains(subject, VStr(z3.StringVal(chr(c_)), subject.ty), st) for c_ in chars])
+                return VOpt(z3.Not(hit), VMatch({}, subject, subject.ty))
+            class _Defer:
+                facts = []
+                def assume(self, f): self.facts.append(f)
+            dst = _Defer(); dst.facts = []
+            ok, groups = regex.match_with_groups(kind, pat, subject.term, fl, dst)
+            # the decomposition facts are stated at once: deferring them to the first group access was measured to slow down clauses that only TEST a
+            # membership (percent_encode: 5 s -> timeout), because the pieces also carry the length structure of the match
+            for f_ in dst.facts: st.assume(f_)
+            dst.facts = []
         except regex.Unsupported as e:
             # uninterpreted: only the exception behaviour (none) is known
             g = z3.Function('re_%s_%x' % (kind, hash(pat) & 0xffffff), z3.StringSort(), z3.BoolSort())
             ex.ctx.warnings.append('regex %r uninterpreted: %s' % (pat, e))
             return VOpt(z3.Not(g(subject.term)), VMatch({}, subject, subject.ty))
         gv = {k: VStr(t, subject.ty) if not opt else VOpt(optflag, VStr(t, subject.ty)) for k, (t, opt, optflag) in groups.items()}
-        return VOpt(z3.Not(ok), VMatch(gv, subject, subject.ty))
+        return VOpt(z3.Not(ok), VMatch(gv, subject, subject.ty, dst.facts))
     return f
 
 
@@ -1236,6 +1277,15 @@ class VConst(V):
     def __init__(self, py): self.py = py; self.ty = TAny()
 
     def truth(self): return z3.BoolVal(bool(self.py))
+
+
+class VPattern(V):
+    """NAME = re.compile(<literal>[, flags]) read from the source"""
+    def __init__(self, pattern, flags=None): self.pattern = pattern; self.flags = flags; self.ty = TAny()
+
+    def truth(self): return z3.BoolVal(True)
+
+    def attr(self, ex, st, node, name): return VFunc('patmethod', name, self)
 
 
 class VCharsOf(V):
@@ -1383,15 +1433,21 @@ BUILTINS['sum'] = b_sum
 _b_min0 = b_min
 
 
-def b_min2(ex, st, node, *a):
-    if len(a) == 1 and isinstance(a[0], VFiltered):
+def b_min2(ex, st, node, *a, **kw):
+    if len(a) == 1 and isinstance(a[0], VFiltered) and set(kw) <= {'default'}:
         items = a[0].items
         none_ok = z3.Not(z3.Or([c for c, v in items] or [z3.BoolVal(False)]))
-        ex.may_raise(st, 'ValueError', node, none_ok, z3.Not(none_ok), 'min() of an empty sequence')
         r = z3.FreshInt('min')
-        st.assume(z3.Or([z3.And(c, r == v.term) for c, v in items] or [z3.BoolVal(False)]))
+        if 'default' in kw:
+            # min(iterable, default=d): d when nothing qualifies (no ValueError)
+            d = ex.as_int(kw['default'], st, node).term
+            st.assume(z3.If(none_ok, r == d, z3.Or([z3.And(c, r == v.term) for c, v in items] or [z3.BoolVal(False)])))
+        else:
+            ex.may_raise(st, 'ValueError', node, none_ok, z3.Not(none_ok), 'min() of an empty sequence')
+            st.assume(z3.Or([z3.And(c, r == v.term) for c, v in items] or [z3.BoolVal(False)]))
         for c, v in items: st.assume(z3.Implies(c, r <= v.term))
         return VInt(r)
+    if kw: raise ToolLimit('min() with keyword arguments %s' % sorted(kw))
     return _b_min0(ex, st, node, *a)
 
 
